@@ -29,6 +29,8 @@ type Outcome struct {
 	Fingerprint string   // non-empty: the case is non-trivial by the property's rule; distinctness is by this string
 	Classes     []string // labels for the generator histogram
 	Discard     bool     // the case fell outside the property's domain (counted separately, not an evaluation)
+	More        []string // further non-trivial fingerprints covered by the same case (e.g. one per fault point)
+	Evals       int      // executions performed inside this case when it enumerates several (0 = 1)
 }
 
 // Violation is a failed oracle. Sig identifies the shape of the failure (it is
@@ -39,6 +41,13 @@ type Violation struct {
 }
 
 func (v *Violation) Error() string { return v.Sig + ": " + v.Msg }
+
+// Harness builds a pseudo-violation for a failure of the harness itself
+// (tool missing, dry run failed): it is reported as ERROR -> exit 2
+// (inconclusive), never as a VIOLATION.
+func Harness(format string, args ...interface{}) *Violation {
+	return &Violation{Sig: "HARNESS", Msg: fmt.Sprintf(format, args...)}
+}
 
 // V builds a violation.
 func V(sig string, format string, args ...interface{}) *Violation {
@@ -274,7 +283,11 @@ func Run[C any](t *testing.T, s Spec[C]) {
 			part.Discarded++
 			return
 		}
-		part.Evaluations++
+		if o.Evals > 1 {
+			part.Evaluations += o.Evals
+		} else {
+			part.Evaluations++
+		}
 		for _, cl := range o.Classes {
 			part.Classes[cl]++
 		}
@@ -289,9 +302,20 @@ func Run[C any](t *testing.T, s Spec[C]) {
 				}
 			}
 		}
+		for _, f := range o.More {
+			fps[f] = true
+		}
 	}
 
 	violate := func(c C, v *Violation) {
+		if v.Sig == "HARNESS" {
+			say("ERROR property=%s check=%s: harness failure: %s", s.ID, s.Name, v.Msg)
+			if part.Extra == nil {
+				part.Extra = map[string]int64{}
+			}
+			part.Extra["harness_error"]++
+			return
+		}
 		p := writeReplay(s.ID, s.Name, c, v)
 		part.Violations++
 		part.Replays = append(part.Replays, p)
